@@ -69,7 +69,10 @@ ConvWhy(x, dt, o) ==
        ELSE IF ~ExtEq(TVal(o.v), xv) THEN "lossy-ok"
        ELSE IF o.back.k = "none" \/ xv.k # "fin" THEN ""
        ELSE IF o.back.k = "panic" THEN "roundtrip-panic"
-       ELSE IF o.back.k = "err" THEN "roundtrip-refused"
+       ELSE IF o.back.k = "err" THEN
+              \* documented latitude (integer/tests/convert.rs pins it): the way back from a big integer into
+              \* f32/f64 may refuse every integer beyond the contiguous exact range 2^24 / 2^53
+              (IF IsPrimFloat(x.t) /\ dt \in {"U", "I"} /\ BitLen(o.v.i.m) > FmtOf(x.t).M THEN "" ELSE "roundtrip-refused")
        ELSE IF ~WellFormed(o.back.v) THEN "malformed-roundtrip"
        ELSE IF ~ExtEq(TVal(o.back.v), xv) THEN "roundtrip-differs"
        ELSE ""
